@@ -483,8 +483,12 @@ Proof.
   assert (node_ok s = true) as ->.
   { destruct s; simpl in *; [|reflexivity]. unfold wf_iri in Hs. now apply andb_true_iff in Hs as [? _]. }
   assert (valid_uri p = true) as -> by (unfold wf_iri in Hp; now apply andb_true_iff in Hp as [? _]).
-  assert (match o with ONode n => node_ok n | OLit _ _ _ => true end = true) as ->.
-  { destruct o as [[u|l]|]; simpl in *; try reflexivity. unfold wf_iri in Ho. now apply andb_true_iff in Ho as [? _]. }
+  assert (obj_ok o = true) as ->.
+  { destruct o as [[u|l]|lex lang dt]; simpl in *; try reflexivity.
+    - unfold wf_iri in Ho. now apply andb_true_iff in Ho as [? _].
+    - destruct (truthy lang); [reflexivity|]. destruct dt as [d|]; [|reflexivity].
+      destruct lang; [discriminate|]. destruct d; [reflexivity|]. cbn [truthy].
+      unfold wf_iri in Ho. now apply andb_true_iff in Ho as [? _]. }
   cbn [andb]. unfold row_line. f_equal. repeat (rewrite <- ?app_assoc; cbn [app]). reflexivity.
 Qed.
 
@@ -511,12 +515,11 @@ Proof.
   change (c :: q ++ 32 :: 60 :: p ++ 62 :: 32 :: obj_text o ++ [32; 46])
     with ((c :: q) ++ 32 :: 60 :: p ++ 62 :: 32 :: obj_text o ++ [32; 46]).
   rewrite <- Hq. rewrite rd_subject_ok by assumption.
-  cbn [eat_wspaces]. replace (is_sp 32) with true by reflexivity.
-  rewrite drop_while_stop by reflexivity. rewrite N.eqb_refl.
+  unfold eat_wspace. cbn [drop_while]. replace (is_sp 32) with true by reflexivity.
+  replace (is_sp 60) with false by reflexivity. rewrite N.eqb_refl.
   rewrite rd_uriref_ok by assumption.
-  cbn [eat_wspaces]. replace (is_sp 32) with true by reflexivity.
   destruct (obj_text_head o) as (c' & q' & Hq' & Hsp').
-  rewrite Hq'. cbn [app]. rewrite (drop_while_stop _ c' _ Hsp').
+  rewrite Hq'. cbn [app drop_while]. replace (is_sp 32) with true by reflexivity. rewrite Hsp'.
   change (c' :: q' ++ [32; 46]) with ((c' :: q') ++ 32 :: [46]). rewrite <- Hq'.
   rewrite rd_object_ok.
   - reflexivity.
@@ -875,87 +878,6 @@ Proof.
   now rewrite strconst_short.
 Qed.
 
-(* three-quote form, proved for strings without a quote character (the replacement of triple quotes and the
-   patch of a trailing quote are then no-ops); with quotes the statement is only checked by enumeration *)
-Definition ttl_esc_long (x : N) : str :=
-  if x =? 92 then [92; 92] else if x =? 13 then [92; 114] else [x].
-
-Lemma contains3_no_quote : forall s, mem 34 s = false -> contains3 s = false.
-Proof.
-  induction s as [|a t IH]; intros H; [reflexivity|].
-  unfold mem in H. cbn [existsb] in H. apply orb_false_iff in H as [Ha Ht]. rewrite N.eqb_sym in Ha.
-  destruct t as [|b [|c r]]; try reflexivity.
-  cbn [contains3]. rewrite Ha. cbn [andb orb]. apply IH. exact Ht.
-Qed.
-
-Lemma mem_app : forall c a b, mem c (a ++ b) = mem c a || mem c b.
-Proof. intros. unfold mem. apply existsb_app. Qed.
-
-Lemma patch_last_no_quote : forall e, mem 34 e = false -> patch_last e = e.
-Proof.
-  intros e H. unfold patch_last. destruct (rev e) as [|l [|p r]] eqn:E; try reflexivity.
-  assert (Hin : In l e) by (apply in_rev; rewrite E; now left).
-  destruct (N.eqb_spec l 34) as [->|]; [|reflexivity].
-  apply mem_true_in in Hin. congruence.
-Qed.
-
-Lemma long_body_flat : forall s, mem 34 s = false ->
-  replace1 13 [92; 114] (replace1 92 [92; 92] s) = flat_map ttl_esc_long s.
-Proof.
-  induction s as [|x s IH]; intros H; [reflexivity|].
-  unfold mem in H. cbn [existsb] in H. apply orb_false_iff in H as [_ Hs].
-  rewrite replace1_cons, replace1_app, (IH Hs). cbn [flat_map]. f_equal.
-  unfold ttl_esc_long. destruct (N.eqb_spec x 92) as [->|N92]; [reflexivity|].
-  unfold replace1. cbn [flat_map app]. destruct (x =? 13); reflexivity.
-Qed.
-
-Lemma no_quote_replace92 : forall s, mem 34 s = false -> mem 34 (replace1 92 [92; 92] s) = false.
-Proof.
-  induction s as [|x s IH]; intros H; [reflexivity|].
-  unfold mem in H. cbn [existsb] in H. apply orb_false_iff in H as [Hx Hs].
-  rewrite replace1_cons, mem_app, (IH Hs), orb_false_r.
-  destruct (N.eqb_spec x 92) as [->|]; [reflexivity|]. unfold mem. cbn [existsb]. now rewrite Hx.
-Qed.
-
-Lemma strconst_long : forall s, mem 34 s = false ->
-  strconst true (flat_map ttl_esc_long s ++ [34; 34; 34]) = Some (s, []).
-Proof.
-  induction s as [|x s IH]; intros H; [reflexivity|].
-  unfold mem in H. cbn [existsb] in H. apply orb_false_iff in H as [Hx Hs]. rewrite N.eqb_sym in Hx.
-  cbn [flat_map]. unfold ttl_esc_long at 1.
-  destruct (N.eqb_spec x 92) as [->|N92];
-    [cbn [app]; rewrite (strconst_esc true 92 92) by reflexivity; now rewrite IH|].
-  destruct (N.eqb_spec x 13) as [->|N13];
-    [cbn [app]; rewrite (strconst_esc true 114 13) by reflexivity; now rewrite IH|].
-  destruct (N.eqb_spec x 10) as [->|N10]; [cbn [app]; rewrite strconst_nl_triple; now rewrite IH|].
-  apply N.eqb_neq in N92, N13, N10. cbn [app]. rewrite strconst_plain by assumption. now rewrite IH.
-Qed.
-
-Theorem ttl_long_roundtrip_partial : forall s, mem 10 s = true -> mem 34 s = false ->
-  ttl_read (ttl_quote_encode s) = Some s.
-Proof.
-  intros s Hnl Hq. unfold ttl_quote_encode. rewrite Hnl, (contains3_no_quote s Hq).
-  rewrite patch_last_no_quote by (now apply no_quote_replace92).
-  rewrite long_body_flat by exact Hq.
-  unfold ttl_read. cbn [app strip_prefix]. rewrite !N.eqb_refl.
-  now rewrite strconst_long.
-Qed.
-
-Definition ttl_kf_none (c : ttl_case) : N := 0.
-(* the region the proofs cover *)
-Definition ttl_wf (c : ttl_case) : bool :=
-  match c with TtlString s => negb (mem 10 s) || negb (mem 34 s) | TtlRaw _ _ => true end.
-
-Theorem ttl_spec_model_partial : forall c, ttl_wf c = true -> ttl_spec c (ttl_model c) = true.
-Proof.
-  intros [s|tr s] H; [|reflexivity].
-  unfold ttl_spec, ttl_model. simpl in H.
-  destruct (mem 10 s) eqn:Hnl.
-  - destruct (mem 34 s) eqn:Hq; [discriminate|].
-    rewrite ttl_long_roundtrip_partial by assumption. apply str_eqb_refl.
-  - rewrite ttl_short_roundtrip by assumption. apply str_eqb_refl.
-Qed.
-
 Theorem rt_spec_model : forall c, rt_kf c = 0 -> rt_spec c (rt_model c) = true.
 Proof. intros c H. unfold rt_kf in H. subst c. reflexivity. Qed.
 
@@ -1026,17 +948,6 @@ Lemma nt_roundtrip_refuted_witness :
   wf_triple w_nbsp_triple = true /\ pystr_triple w_nbsp_triple = true /\ nt_kf (NtTriple w_nbsp_triple) = 1 /\
   exists s, nt_row w_nbsp_triple = Some s /\ parse_doc s = None /\ parse_doc_buf bufsiz s = None.
 Proof. repeat split. eexists. repeat split; vm_compute; reflexivity. Qed.
-
-(* a line feed inside the scheme part cuts the row in two *)
-Definition w_lf_triple : triple := (Iri [97; 10; 98; 58; 99], [104; 58; 112], ONode (Iri [104; 58; 111])).
-Lemma nt_lf_witness :
-  wf_triple w_lf_triple = true /\ nt_kf (NtTriple w_lf_triple) = 1 /\
-  exists s, nt_row w_lf_triple = Some s /\ parse_doc s = None.
-Proof. repeat split. eexists. split; vm_compute; reflexivity. Qed.
-
-Lemma langtag_dollar_quirk :
-  py_valid_langtag [101; 110; 10] = true /\ valid_langtag [101; 110; 10] = false.
-Proof. split; reflexivity. Qed.
 
 (* the reflected single-character tables agree with the modelled writers *)
 Lemma nt_quote_table_agrees :
